@@ -55,6 +55,14 @@ def c04_s(draw, pid, tier, opts=None):
         "pick": draw(st.integers(0, 50)),
         "pos": draw(st.integers(k + 1 if k else 0, n)),
     }
+    # "shadow" an existing reply: same client and service, inserted right before it, so that the
+    # stray line arrives while that service really owes an answer
+    xs = [j for j, e in enumerate(base["events"]) if e[0] == "X" and e[4] == "cur"]
+    if xs and draw(st.integers(0, 9)) < 6:
+        j = draw(st.sampled_from(xs))
+        stray["id"] = base["events"][j][1]
+        stray["svc_name"] = base["events"][j][2]
+        stray["pos"] = j
     base["stray"] = stray
     return base
 
@@ -66,7 +74,7 @@ def stray_line(stray, conf, spec):
     c = spec.cur.get(cid)
     ser = c.serial if c is not None else 1
     svcs = [s[0] for s in conf["services"]] or ["nobody.ex"]
-    svc = svcs[stray["svc_i"] % len(svcs)]
+    svc = stray.get("svc_name") or svcs[stray["svc_i"] % len(svcs)]
     kind = stray["kind"]
     tag = "%x_%x" % (cid & 0xffffffff, ser)
     if kind == "stale":
